@@ -285,10 +285,11 @@ def object_level(cls: str, twin: bool = False, real: bool = False):
     return check_object, {"greeted": cls != "anything-before-greeting", "v": 0, "k": 1, "n": 0}
 
 
-def replayed_block(lo: int, hi: int, twin: bool = False, real: bool = False):
+def replayed_block(lo: int, hi: int, then_genuine: bool = False, twin: bool = False, real: bool = False):
     """Replay of valid traffic with one corrupted byte: the bytes of a block the node already has (the sibling fork's tip),
     one byte replaced by a symbolic value, delivered as a data message. Nothing may change: the node either recognises the
-    block it has, or refuses the bytes."""
+    block it has, or refuses the bytes. then_genuine: the node does NOT have the block yet; after the corrupted copy was refused,
+    the genuine bytes arrive on another connection and must be accepted (a refusal is not held against the id)."""
     W = World(real=real, networking=True, served_head="P", lro=True)
     from symlib import nodeshell as ns
     import skepticoin.networking.remote_peer as rpm
@@ -314,10 +315,13 @@ def replayed_block(lo: int, hi: int, twin: bool = False, real: bool = False):
         # all ids are derived from the bytes (no preset ids), so decoding the same bytes gives the same ids
         cb = W.env.coinbase(W.h, [W.dt.Output(1, W.keys[3])], None, data=b"k")
         known = W.candidate(cm.coinstate, [cb], 3000, bid=None, nonce=2)
-        cm.coinstate = cm.coinstate.add_block(known, 3000)
-        cm.last_known_valid_coinstate = cm.coinstate
+        if not then_genuine:
+            cm.coinstate = cm.coinstate.add_block(known, 3000)
+            cm.last_known_valid_coinstate = cm.coinstate
         enc = known.serialize()
         if pos >= len(enc):
+            return True
+        if then_genuine and v == enc[pos]:
             return True
         body = enc[:pos] + bytes([v]) + enc[pos + 1:]
         payload = HDR + TYPES["data"] + b"\x00" + b"\x00\x00" + body
@@ -331,7 +335,15 @@ def replayed_block(lo: int, hi: int, twin: bool = False, real: bool = False):
             return False
         if not _same(before, _snapshot(lp, others)):
             return False
-        return len(lp.chain_manager.coinstate.block_by_hash) == nblocks
+        if len(lp.chain_manager.coinstate.block_by_hash) != nblocks:
+            return False
+        if then_genuine:
+            good = HDR + TYPES["data"] + b"\x00" + b"\x00\x00" + enc
+            if _deliver(lp, ns, others[0], b"MAJI" + struct.pack(">I", len(good)) + good) is not None:
+                return False
+            cs2 = lp.chain_manager.coinstate
+            return len(cs2.block_by_hash) == nblocks + 1 and cs2.head().serialize() == enc
+        return True
 
     return check_replayed, {"pos": lo, "v": 1}
 
@@ -361,6 +373,9 @@ def obligations(tier: str, known: List[str]) -> List[Ob]:
         obs.append(Ob("bytes[replayed-known-block,corrupted byte %d-%d]" % (lo, lo + 7), C_2 + "; " + C_3, "replayed_block",
                       {"lo": lo, "hi": lo + 8}, timeout=T))
     obs.append(twin_of([o for o in obs if o.name.startswith("bytes[replayed-known-block,corrupted byte 0-7")][0], timeout=300))
+    for lo in (list(range(0, 328, 8)) if thorough else [0, 208, 312]):
+        obs.append(Ob("bytes[corrupted copy of an unknown block (byte %d-%d), then the genuine block]" % (lo, lo + 7), C_2 + "; " + C_3,
+                      "replayed_block", {"lo": lo, "hi": lo + 8, "then_genuine": True}, timeout=T))
     for c in CLASSES:
         obs.append(Ob("object[%s]" % c, C_1 + "; " + C_2 + "; " + C_3, "object_level", {"cls": c}, timeout=T))
     obs.append(twin_of([o for o in obs if o.name == "object[transaction-failing-a-rule]"][0], timeout=300))
